@@ -210,7 +210,9 @@ fn view(sim: &Sim) -> View {
     }
     let (li, lt, lc) = (lr.raft_log.last_index(), lr.raft_log.last_term(), lr.raft_log.committed);
     if lc != li {
-        return View { leaders, converged: false, why: format!("leader {} commit {} < last index {}", sim.nodes[l].id, lc, li) };
+        let mut prs: Vec<String> = lr.prs().iter().map(|(k, p)| format!("{}:{:?}/m{}/n{}/paused={}/ins={}/pend_snap={}/req_snap={}/active={}", k, p.state, p.matched, p.next_idx, p.paused, p.ins.count(), p.pending_snapshot, p.pending_request_snapshot, p.recent_active)).collect();
+        prs.sort();
+        return View { leaders, converged: false, why: format!("leader {} (term {}) commit {} < last index {}; transferee {:?}; conf {:?}; progress {:?}", sim.nodes[l].id, lr.term, lc, li, lr.lead_transferee, conf, prs) };
     }
     for i in 0..nn {
         if !conf.is_member(sim.nodes[i].id) {
@@ -262,6 +264,21 @@ pub fn fair_suffix(sim: &mut Sim) {
     for i in 0..nn {
         if !live(sim, i) {
             sim.start(i);
+        }
+    }
+    // the application owes a report for every snapshot it was asked to send: those of the
+    // prefix are reported failed now
+    for i in 0..nn {
+        let pend: Vec<u64> = match sim.nodes[i].driver.as_ref() {
+            Some(d) if d.node.raft.state == StateRole::Leader => {
+                let mut v: Vec<u64> = d.node.raft.prs().iter().filter(|(_, p)| p.state == ProgressState::Snapshot).map(|(k, _)| *k).collect();
+                v.sort_unstable();
+                v
+            }
+            _ => vec![],
+        };
+        for p in pend {
+            sim.call(i, Call::ReportSnapshot(p, true));
         }
     }
     // undo "disable the progress" knobs (documented as disabling replication to that peer)
